@@ -151,7 +151,7 @@ func (q Quantity) timeDuration() (time.Duration, error) {
 	case "minute", "minutes":
 		duration = time.Minute * time.Duration(value)
 	case "second", "seconds":
-		milliseconds := decimal.Decimal(q.value).Round(3).Shift(3).IntPart() // Keep decimal precision below seconds
+		milliseconds := decimal.Decimal(q.value).Shift(3).IntPart() // keep milliseconds; what lies below is dropped, not rounded up
 		duration = time.Millisecond * time.Duration(milliseconds)
 	case "millisecond", "milliseconds":
 		duration = time.Millisecond * time.Duration(value)
